@@ -109,7 +109,9 @@ def _frame(kind, ch: Optional[Choices], uniq, via):
             data = {"v": n, "s": ["x", None, [1, 2], {"k": False}][d("fr.shape", 4)]}
         return {"k": "next", "data": data, "ext": bool(d("fr.ext", 2))}
     if kind == "error":
-        n = 1 + d("fr.nerr", 3)
+        n = d("fr.nerr", 4) or 1
+        if ch is not None and d("fr.noerr", 8) == 7:
+            n = 0
         errs = []
         for i in range(n):
             e = {"message": "boom-%d-%d" % (next(uniq), i)}
